@@ -65,17 +65,41 @@ class PoolObjState(PoolObj):
         return self._n
 
 
+class PoolObjK(PoolObj):
+    """a pool object whose CLASS is registered as a class as well (class index 2): the daemon makes session instances
+    of it without arguments, those answer ["cls", 2]; the pool instance answers and logs like any pool object"""
+
+    def __init__(self, serial=-1, log=None):
+        PoolObj.__init__(self, serial, log)
+
+    @api.expose
+    def who(self):
+        if self._log is None:
+            return ["cls", 2]
+        return PoolObj.who(self)
+
+
 # (the subclasses are not class-exposed: that would publish __len__ / __bool__ as remote methods; who() is inherited exposed)
-SHAPES = {"plain": PoolObj, "len0": PoolObjLen, "bool0": PoolObjBool, "state": PoolObjState}
+SHAPES = {"plain": PoolObj, "len0": PoolObjLen, "bool0": PoolObjBool, "state": PoolObjState, "inst": PoolObjK}
 
 
 @api.expose
 class Made:
     """what Dispenser.make() creates, registers without an id and hands out; lives outside the 3-slot pool"""
 
-    def __init__(self, tag):
+    def __init__(self, tag, hook=None):
         self.tag = tag
         self.calls = 0
+        self._hook = hook
+
+    def __setattr__(self, name, value):
+        """user code that runs INSIDE Daemon.register(): when the daemon marks the object, a hook of the scenario runs once
+        (it makes this registration slow, so that other threads act while this one is inside register())"""
+        object.__setattr__(self, name, value)
+        if name == "_pyroId" and self.__dict__.get("_hook") is not None:
+            hook = self._hook
+            object.__setattr__(self, "_hook", None)
+            hook()
 
     def who(self):
         self.calls += 1
@@ -97,7 +121,7 @@ class ClsB:
         return ["cls", 1]
 
 
-CLASSES = [ClsA, ClsB]
+CLASSES = [ClsA, ClsB, PoolObjK]
 
 
 @api.expose
@@ -105,9 +129,10 @@ class Dispenser:
     """permanent object; give(k) returns pool object k (looked up in the dict shared with the scenario, so the
     dispenser never holds a reference of its own)"""
 
-    def __init__(self, pool, made=None):
+    def __init__(self, pool, made=None, hooks=None):
         self._pool = pool
         self._made = made if made is not None else {}    # tag -> Made, shared with the scenario
+        self._hooks = hooks if hooks is not None else {}  # tag -> callable run inside register() of that object
 
     def give(self, k):
         return self._pool[k]
@@ -115,7 +140,7 @@ class Dispenser:
     def make(self, tag, mode):
         """the everyday factory pattern: create an object, register it WITHOUT an id, hand it out - as the object
         (it travels as a proxy) or as its uri"""
-        obj = Made(tag)
+        obj = Made(tag, self._hooks.pop(tag, None))
         self._made[tag] = obj
         uri = self._pyroDaemon.register(obj)
         return obj if mode == "obj" else str(uri)
